@@ -152,6 +152,52 @@ func runC16(c *Ctx) {
 			c16routine(c, rt)
 		}
 	}
+	// S10: the context every v1 goroutine selects on exists: a missing Opts.Ctx is replaced by
+	// context.Background() exactly when it is nil (replaced when present, cancellation is lost; left
+	// nil when missing, the first select panics on a nil interface)
+	r.Doc("S10", "a missing Ctx is defaulted exactly under Ctx == nil", 3)
+	n10 := 0
+	for _, fn := range p.Funcs() {
+		for _, b := range fn.Blocks {
+			for _, in := range b.Instrs {
+				st, ok := in.(*ssa.Store)
+				if !ok {
+					continue
+				}
+				fa, isFA := st.Addr.(*ssa.FieldAddr)
+				if !isFA || fieldName(fa.X.Type(), fa.Field) != "Ctx" {
+					continue
+				}
+				vs := p.Sym(st.Val)
+				if !(vs.Op == "call" && vs.Name == "context.Background") {
+					continue
+				}
+				n10++
+				underNil := false
+				for _, e := range InstrDomEdges(st) {
+					iff := e.From.Instrs[len(e.From.Instrs)-1].(*ssa.If)
+					cm := p.NormCmp(iff.Cond, e.Succ == 0)
+					if cm == nil || cm.Op != token.EQL {
+						continue
+					}
+					l, rr := deepStrip(cm.L), deepStrip(cm.R)
+					isCtx := func(x *Sym) bool {
+						_, path, okp := x.FieldPath()
+						return okp && path[len(path)-1] == "Ctx"
+					}
+					isNil := func(x *Sym) bool { return x.String() == "nil" || (x.Op == "const" && x.Name == "nil") }
+					if (isCtx(l) && isNil(rr)) || (isCtx(rr) && isNil(l)) {
+						underNil = true
+					}
+				}
+				r.Check(underNil, "S10", fmt.Sprintf("%s#ctx-default.%d", p.FnKey(fn), n10), p.InstrPos(in), "context.Background() under Ctx == nil",
+					"the context is replaced by context.Background() although it is not tested to be nil here: a configured context is dropped (its cancellation no longer stops the discipline) and a missing one stays nil (the goroutine panics at its first select)")
+			}
+		}
+	}
+	if n10 == 0 {
+		r.Fail("S10", "v1#ctx-default", "-", "UNRESOLVED-ANCHOR: no defaulting of Opts.Ctx found")
+	}
 	// S8: the stop API blocks until completion (Break on the own breaker, synchronously)
 	r.Doc("S8", "Stop()/GracefulStop() call Break() of the matching breaker synchronously (they return only after the goroutine completed)", 5)
 	for _, d := range p.Discs() {
